@@ -141,7 +141,15 @@ def check(case, ctx):
         c3.degree = 1
         c3.ctrlpts = [[0.1, 0.1], [0.4, 0.1], [0.1, 0.4], [0.1, 0.1]]
         c3.knotvector = knotvector.generate(1, 4)
-        cc = multi.CurveContainer(c3)
+        c4 = BSpline.Curve()
+        c4.degree = 2
+        c4.ctrlpts = [[0.6, 0.6], [0.9, 0.6], [0.75, 0.9], [0.6, 0.6]]
+        c4.knotvector = knotvector.generate(2, 4)
+        c5 = BSpline.Curve()
+        c5.degree = 1
+        c5.ctrlpts = [[0.05, 0.6], [0.2, 0.6], [0.2, 0.8], [0.05, 0.6]]
+        c5.knotvector = knotvector.generate(1, 4)
+        cc = multi.CurveContainer(*([c3, c4, c5][:rng.randint(1, 3)]))
         trims = [ff, c2, cc]
         rng.shuffle(trims)
         o.trims = trims
@@ -173,8 +181,11 @@ def check(case, ctx):
                         ctx.check(a.degree == b.degree and [list(p) for p in a.ctrlpts] == [list(p) for p in b.ctrlpts] and
                                   list(a.knotvector) == list(b.knotvector), 'json/trim-data', 'spline trim changed', what='trims')
                     else:
-                        ctx.check(len(a) == len(b) and all([list(p) for p in x.ctrlpts] == [list(p) for p in y.ctrlpts] for x, y in zip(a, b)),
-                                  'json/trim-data', 'container trim changed', what='trims')
+                        def cdata(x):
+                            return [list(p) for p in (x.evalpts if x.type == 'freeform' else x.ctrlpts)]
+                        ctx.check(len(a) == len(b) and all(x.type == y.type and cdata(x) == cdata(y) for x, y in zip(a, b)),
+                                  'json/trim-data', 'container trim of %d curves came back with %d curves or changed data' % (len(a), len(b)),
+                                  what='trims')
     # file layout, parsed independently
     with open(fn) as f:
         raw = json.load(f)
